@@ -356,7 +356,7 @@ class SArr(Model):
                                  {'IndexError', 'LookupError', 'Exception', 'BaseException'}))
         # boolean mask / fancy index on a single axis
         if len(idx) == 1 and isinstance(idx[0], SArr) and idx[0].dtype == 'bool':
-            return MaskedView(self, idx[0])
+            return MaskedView(self, idx[0], it)
         plan = []   # per source axis: ('fix', k) | ('all', lo, n) | ('fancy', SArr/list)
         out_shape = []
         for ax in range(self.rank):
@@ -548,13 +548,29 @@ class SArr(Model):
 
 
 class MaskedView(SArr):
-    """x[mask]: only used as `x[x[positive] < 0] = 0`-style patterns and `mu[mu != 0]`"""
+    """x[mask] for a rank-1 x: the sub-sequence of the elements whose mask is true, in order.
+    Modelled as a fresh length m with a strictly increasing source map src:[0,m)->[0,n) whose image is
+    exactly the set of indices with mask true."""
 
-    def __init__(self, base, mask):
-        n = None
+    def __init__(self, base, mask, it=None):
         SArr.__init__(self, (None,), None, base.dtype)
         self.base = base
         self.mask = mask
+        if it is not None and base.rank == 1 and mask.rank == 1:
+            n = to_num(base.shape[0])
+            m = it.ctx.fresh_int('nsel')
+            src = it.ctx.fresh_func('src', z3.IntSort(), z3.IntSort())
+            inv = it.ctx.fresh_func('srcinv', z3.IntSort(), z3.IntSort())
+            j, i = z3.Int(it.ctx._name('jm')), z3.Int(it.ctx._name('im'))
+            it.ctx.note_trusted("boolean-mask indexing a[mask]: the elements with a true mask, in order")
+            it.ctx.assume(z3.And(m >= 0, m <= n))
+            it.ctx.assume(z3.ForAll([j], z3.Implies(z3.And(j >= 0, j < m),
+                                                    z3.And(src(j) >= 0, src(j) < n, mask.get((src(j),)), inv(src(j)) == j)), patterns=[src(j)]))
+            it.ctx.assume(z3.ForAll([i], z3.Implies(z3.And(i >= 0, i < n, mask.get((i,))),
+                                                    z3.And(inv(i) >= 0, inv(i) < m, src(inv(i)) == i)), patterns=[inv(i)]))
+            self.shape = (m,)
+            self.get = lambda o: base.get((src(o[0]),))
+            self.src = src
 
 
 class MaskedViewCmp(SArr):
@@ -892,7 +908,15 @@ def arr_sum(it, a, axis=None):
         return g(())
     if axis is None:
         if a.rank == 1:
-            return partial_sum(it, a.shape[0], lambda k: conv(g((k,))), 'sum', real)
+            tot = partial_sum(it, a.shape[0], lambda k: conv(g((k,))), 'sum', real)
+            if getattr(it, 'sum_nonneg_lemma', False):
+                # LEMMA (lemmas/Sums.lean: sum_nonneg_ge_term): a finite sum of non-negative terms is >= each of its terms
+                it.ctx.note_trusted("lemma sum_nonneg_ge_term (Lean-checked in /verif/lemmas): a finite sum of non-negative terms is >= 0 and >= each term")
+                k1, k2 = z3.Int(it.ctx._name('ks')), z3.Int(it.ctx._name('kt'))
+                n_ = to_num(a.shape[0])
+                it.ctx.assume(z3.Implies(z3.ForAll([k1], z3.Implies(z3.And(k1 >= 0, k1 < n_), conv(g((k1,))) >= 0)),
+                                         z3.And(tot >= 0, z3.ForAll([k2], z3.Implies(z3.And(k2 >= 0, k2 < n_), tot >= conv(g((k2,))))))))
+            return tot
         if a.rank == 2:
             m = a.shape[1]
             return partial_sum(it, a.shape[0],
@@ -905,6 +929,49 @@ def arr_sum(it, a, axis=None):
     if a.rank == 1 and axis == 0:
         return arr_sum(it, a)
     raise Unsupported("sum axis")
+
+
+def arr_mean(it, a, axis=None):
+    """mean along one axis (or of all elements of a rank-1 array): sum / count"""
+    it.ctx.note_trusted("np.mean: the sum along the axis divided by the number of elements along it")
+    g = a.get
+    if axis is None:
+        if a.rank != 1:
+            raise Unsupported("mean of all elements of rank %d" % a.rank)
+        n = a.shape[0]
+        it.ctx.oblige("safety/mean-of-nonempty", to_num(n) >= 1)
+        return partial_sum(it, n, lambda k: to_real(g((k,))), 'mean') / to_real(n)
+    if axis < 0:
+        axis += a.rank
+    n = a.shape[axis]
+    it.ctx.oblige("safety/mean-of-nonempty", to_num(n) >= 1)
+    rest = tuple(d for i, d in enumerate(a.shape) if i != axis)
+
+    def get(o):
+        return partial_sum(it, n, lambda k: to_real(g(tuple(o[:axis]) + (k,) + tuple(o[axis:]))), 'mean') / to_real(n)
+    if not rest:
+        return get(())
+    return SArr(rest, get)
+
+
+def np_dstack(it, seq):
+    """np.dstack of equally shaped rank-2 arrays: out[a, b, r] = seq[r][a, b]"""
+    it.ctx.note_trusted("np.dstack(seq of (A,B) arrays): a (A,B,len(seq)) array with out[a,b,r] = seq[r][a,b]")
+    rows = it.iterate(seq)
+    if isinstance(rows, SymIter):
+        n, elem = rows.length, rows.element
+    else:
+        n, elem = len(rows), (lambda k: it.lib.select_concrete_seq(it, rows, k) if not z3.is_int_value(k) else rows[k.as_long()])
+    pk = it.ctx.fresh_int('dk')
+    probe = elem(pk)
+    if not isinstance(probe, SArr) or probe.rank != 2:
+        raise Unsupported("dstack of non rank-2 elements")
+    first = elem(z3.IntVal(0))
+    # all elements must have the same shape (numpy raises otherwise)
+    it.ctx.oblige("pre(np.dstack): all arrays have the same shape",
+                  z3.ForAll([pk], z3.Implies(z3.And(pk >= 0, pk < to_num(n)),
+                                             z3.And(to_num(probe.shape[0]) == to_num(first.shape[0]), to_num(probe.shape[1]) == to_num(first.shape[1])))))
+    return SArr((first.shape[0], first.shape[1], n), lambda o: elem(o[2]).get((o[0], o[1])))
 
 
 def arr_all(it, a):
@@ -1069,6 +1136,7 @@ ARRAY_METHODS = {
     'astype': lambda it, a, dtype, copy=True: a,
     'min': lambda it, a: arr_min(it, a),
     'max': lambda it, a: arr_max(it, a),
+    'mean': lambda it, a, axis=None: arr_mean(it, a, axis),
 }
 
 TRUSTED = {
@@ -1451,6 +1519,16 @@ class Lib(object):
             return [(i + start, v) for i, v in enumerate(seq)]
 
         def _zip(it_, a, k):
+            if len(a) == 1 and type(a[0]).__name__ == 'StarSeq':
+                # zip(*rows) with rows a symbolic-length sequence of equal-arity tuples: the transposition
+                rows = it_.iterate(a[0].seq)
+                if not isinstance(rows, SymIter):
+                    return list(zip(*rows))
+                probe = rows.element(z3.Int(it_.ctx._name('zp')))
+                if not isinstance(probe, tuple):
+                    raise Unsupported("zip(*seq) over non-tuple elements")
+                it_.ctx.note_trusted("zip(*rows): column j is the sequence of the j-th components of the rows")
+                return [SList(rows.length, (lambda j_: (lambda kk: rows.element(kk)[j_]))(j)) for j in range(len(probe))]
             seqs = [it_.iterate(x) for x in a]
             if any(isinstance(s, SymIter) for s in seqs):
                 if not all(isinstance(s, SymIter) for s in seqs):
@@ -1672,6 +1750,7 @@ class Lib(object):
         reg('range', _range)
         reg('enumerate', _enumerate)
         reg('zip', _zip)
+        b['zip'].star_ok = True
         reg('isinstance', _isinstance)
         reg('hasattr', _hasattr)
         reg('getattr', _getattr)
